@@ -134,7 +134,7 @@ instruction_table = [
         ("i32", "i32", "i32"),
         (),
     ),
-    ("data.drop", (0xFC, 9), (ArgType.DATAIDX,)),
+    ("data.drop", (0xFC, 9), (ArgType.DATAIDX,), (), ()),
     (
         "memory.copy",
         (0xFC, 10),
